@@ -31,63 +31,7 @@ func c12(c *Check) {
 	regFns := []string{"RegisterCoin", "AddCoin", "RegisterERC20", "UpdateTokenPairERC20"}
 
 	c.Rule("C12/guard-key-is-write-key", "a registration function that indexes a denomination D (or contract A) for a pair has tested exactly that D (A) as not-yet-registered on every path to the write; freshly deployed contracts are exempt; values produced by CreateCoinMetadata are guarded inside it", 7)
-	for _, name := range regFns {
-		fn := c.F(agK + "Keeper." + name)
-		fa := c.P.FA(fn)
-		for _, cs := range append(c.Calls(fn, "keeper.(Keeper).SetDenomMap"), c.Calls(fn, "keeper.(Keeper).SetDenomsMap")...) {
-			args := c.P.ArgExprs(cs)
-			var denoms []*Expr
-			if args[2].Op == "list" {
-				denoms = args[2].Args
-			} else {
-				denoms = []*Expr{args[2]}
-			}
-			conds := fa.PathCondStrings(cs.Ins.Block())
-			for _, d := range denoms {
-				ds := d.String()
-				construct := fmt.Sprintf("%s indexes denom %s", funcName(fn), trunc(ds))
-				switch {
-				case strings.Contains(ds, "(Keeper).GetTokenPair("):
-					c.Ok("C12/guard-key-is-write-key", construct, cs.Ins.Pos(), "re-indexing a denomination of an already stored pair (see C12/three-way-write)")
-				case strings.Contains(ds, "(Keeper).CreateCoinMetadata(") && strings.HasSuffix(ds, "#0.Name"):
-					helper := c.F(agK + "Keeper.CreateCoinMetadata")
-					hfa := c.P.FA(helper)
-					var nameVal string
-					for _, r := range c.P.RetExprs(helper, 0) {
-						if r.Op == "lit" {
-							for _, kv := range r.Args {
-								if kv.Name == "Name" {
-									nameVal = kv.Args[0].String()
-								}
-							}
-						}
-					}
-					_, ok := hfa.GuardSet()["reject aggregate/keeper.(Keeper).IsDenomRegistered($0, $1, "+nameVal+")"]
-					c.Req(ok && nameVal != "", "C12/guard-key-is-write-key", construct, cs.Ins.Pos(), "CreateCoinMetadata rejects when its Name value "+nameVal+" is registered", "CreateCoinMetadata does not reject an already registered value of the metadata Name it returns ("+nameVal+")")
-				default:
-					want := "!aggregate/keeper.(Keeper).IsDenomRegistered($0, $1, " + ds + ")"
-					var tested []string
-					for k := range conds {
-						if strings.Contains(k, "IsDenomRegistered(") {
-							tested = append(tested, k)
-						}
-					}
-					c.Req(conds[want], "C12/guard-key-is-write-key", construct, cs.Ins.Pos(), "guarded by "+want, fmt.Sprintf("denomination %s is indexed but the not-registered test on the paths to this write is on %v: two pairs can end up claiming the same denomination", ds, tested))
-				}
-			}
-		}
-		for _, cs := range c.Calls(fn, "keeper.(Keeper).SetERC20Map") {
-			args := c.P.ArgExprs(cs)
-			a := normAddr(args[2].String())
-			construct := fmt.Sprintf("%s indexes contract %s", funcName(fn), trunc(a))
-			if strings.Contains(a, "(Keeper).DeployERC20Contract(") {
-				c.Ok("C12/guard-key-is-write-key", construct, cs.Ins.Pos(), "freshly deployed contract address")
-				continue
-			}
-			want := "!aggregate/keeper.(Keeper).IsERC20Registered($0, $1, " + a + ")"
-			c.Req(fa.PathCondStrings(cs.Ins.Block())[want], "C12/guard-key-is-write-key", construct, cs.Ins.Pos(), "guarded by "+want, fmt.Sprintf("contract %s is indexed without a dominating not-registered test on that same address: one contract can end up in two pairs", a))
-		}
-	}
+	guardKeyIsWriteKey(c, "C12/guard-key-is-write-key", regFns)
 
 	c.Rule("C12/three-way-write", "whoever stores a pair P also indexes it under id=P.GetID() by its contract address and by all of P.Denoms (AddCoin: the added denom, id unchanged; ToggleRelay: only Enabled changes); after DeleteTokenPair the whole pair is re-indexed", 14)
 	threeWay := func(fnSpec string, wantAddr func(p string) []string) {
@@ -202,11 +146,18 @@ func c12(c *Check) {
 	c.Rule("C12/conversion-resolves-through-the-indexes", "frozen table (shared with C11/gate): MintingEnabled resolves the message's token and denomination through the registry indexes and requires both to name the same stored pair, so every denomination the registry lists for a pair can be converted, in either direction, after any registry change", 5)
 	c.FrozenFiltered("C11", "C12/conversion-resolves-through-the-indexes", func(fn string) bool { return strings.HasSuffix(fn, "Keeper.MintingEnabled") })
 	c.Rule("C12/registered-tests-read-their-own-index", "IsDenomRegistered answers from the by-denomination index at exactly the denomination it is given, IsERC20Registered from the by-contract index at exactly the address bytes: the uniqueness guards of the registration functions mean what their names say for every input (no resolver that guesses the kind of the token from its spelling)", 2)
-	ks := "store/prefix.NewStore(cosmos-sdk/types.(Context).KVStore($1, $0.storeKey), g:aggregate/types.%s)"
-	c.Spec("C12/registered-tests-read-their-own-index", Macros{}, FnSpec{Fn: agK + "Keeper.IsDenomRegistered",
-		Returns: []Ret{{Label: "has(by-denom index, denom)", Index: 0, Want: []string{"store/prefix.(Store).Has(" + fmt.Sprintf(ks, "KeyPrefixTokenPairByDenom") + ", $2)"}}}})
-	c.Spec("C12/registered-tests-read-their-own-index", Macros{}, FnSpec{Fn: agK + "Keeper.IsERC20Registered",
-		Returns: []Ret{{Label: "has(by-contract index, address bytes)", Index: 0, Want: []string{"store/prefix.(Store).Has(" + fmt.Sprintf(ks, "KeyPrefixTokenPairByERC20") + ", go-ethereum/common.(Address).Bytes($2))"}}}})
+	registeredTestsReadOwnIndex(c, "C12/registered-tests-read-their-own-index")
+	c.Rule("C12/resolver-uses-the-index-of-the-token-kind", "GetTokenPairID resolves a hex address through the by-contract index and everything else — every denomination, vouchers included — through the by-denomination index at exactly the string given: a pair is found by each of its denominations whatever contract it currently names", 3)
+	{
+		byAddr := "aggregate/keeper.(Keeper).GetERC20Map($0, $1, go-ethereum/common.HexToAddress($2))"
+		byDenom := "store/prefix.(Store).Get(store/prefix.NewStore(cosmos-sdk/types.(Context).KVStore($1, $0.storeKey), g:aggregate/types.KeyPrefixTokenPairByDenom), $2)"
+		c.Spec("C12/resolver-uses-the-index-of-the-token-kind", Macros{}, FnSpec{Fn: agK + "Keeper.GetTokenPairID",
+			Returns: []Ret{{Label: "one of the two indexes at the given token", Index: 0, Want: []string{byAddr, byDenom, "aggregate/keeper.(Keeper).GetDenomMap($0, $1, $2)"}}},
+			RetAts:  []RetAt{{Label: "by-contract only for a hex address", Index: 0, Want: byAddr, Under: []string{"go-ethereum/common.IsHexAddress($2)"}}},
+		})
+	}
+	c.Rule("C12/conversion-pays-the-requested-denomination", "frozen table (shared with C11/conversions): each conversion function escrows / releases the coin of the denomination named in the message, so a coin of any denomination the registry lists for a pair converts back into that same coin", 20)
+	c.FrozenFiltered("C11", "C12/conversion-pays-the-requested-denomination", func(fn string) bool { return strings.Contains(fn, "Keeper.convert") })
 	c.Rule("C12/id-depends-on", "the pair id hashes the contract address and the first denomination only (so functions changing either must re-index, see three-way-write)", 1)
 	for _, w := range c.P.StoreWrites() {
 		if strings.HasSuffix(funcName(w.Fn), "keeper.(Keeper).SetTokenPair") {
@@ -312,4 +263,74 @@ func addCoinKeepsPair(c *Check, rule string) {
 		})
 		c.Req(fromLoad && rebuilt == "", rule, funcName(ac)+"/stored pair", cs.Ins.Pos(), "loaded pair with Denoms extended", "AddCoin stores "+trunc(arg.String())+": the stored pair is rebuilt ("+rebuilt+") instead of being the loaded pair with one more denomination, so flags of the existing pair (enabled, owner) are reset")
 	}
+}
+
+// guardKeyIsWriteKey: see C12/guard-key-is-write-key (also armed for C11: the backing of a token rests on no contract
+// and no denomination belonging to two pairs).
+func guardKeyIsWriteKey(c *Check, rule string, regFns []string) {
+	for _, name := range regFns {
+		fn := c.F(agK + "Keeper." + name)
+		fa := c.P.FA(fn)
+		for _, cs := range append(c.Calls(fn, "keeper.(Keeper).SetDenomMap"), c.Calls(fn, "keeper.(Keeper).SetDenomsMap")...) {
+			args := c.P.ArgExprs(cs)
+			var denoms []*Expr
+			if args[2].Op == "list" {
+				denoms = args[2].Args
+			} else {
+				denoms = []*Expr{args[2]}
+			}
+			conds := fa.PathCondStrings(cs.Ins.Block())
+			for _, d := range denoms {
+				ds := d.String()
+				construct := fmt.Sprintf("%s indexes denom %s", funcName(fn), trunc(ds))
+				switch {
+				case strings.Contains(ds, "(Keeper).GetTokenPair("):
+					c.Ok(rule, construct, cs.Ins.Pos(), "re-indexing a denomination of an already stored pair (see C12/three-way-write)")
+				case strings.Contains(ds, "(Keeper).CreateCoinMetadata(") && strings.HasSuffix(ds, "#0.Name"):
+					helper := c.F(agK + "Keeper.CreateCoinMetadata")
+					hfa := c.P.FA(helper)
+					var nameVal string
+					for _, r := range c.P.RetExprs(helper, 0) {
+						if r.Op == "lit" {
+							for _, kv := range r.Args {
+								if kv.Name == "Name" {
+									nameVal = kv.Args[0].String()
+								}
+							}
+						}
+					}
+					_, ok := hfa.GuardSet()["reject aggregate/keeper.(Keeper).IsDenomRegistered($0, $1, "+nameVal+")"]
+					c.Req(ok && nameVal != "", rule, construct, cs.Ins.Pos(), "CreateCoinMetadata rejects when its Name value "+nameVal+" is registered", "CreateCoinMetadata does not reject an already registered value of the metadata Name it returns ("+nameVal+")")
+				default:
+					want := "!aggregate/keeper.(Keeper).IsDenomRegistered($0, $1, " + ds + ")"
+					var tested []string
+					for k := range conds {
+						if strings.Contains(k, "IsDenomRegistered(") {
+							tested = append(tested, k)
+						}
+					}
+					c.Req(conds[want], rule, construct, cs.Ins.Pos(), "guarded by "+want, fmt.Sprintf("denomination %s is indexed but the not-registered test on the paths to this write is on %v: two pairs can end up claiming the same denomination", ds, tested))
+				}
+			}
+		}
+		for _, cs := range c.Calls(fn, "keeper.(Keeper).SetERC20Map") {
+			args := c.P.ArgExprs(cs)
+			a := normAddr(args[2].String())
+			construct := fmt.Sprintf("%s indexes contract %s", funcName(fn), trunc(a))
+			if strings.Contains(a, "(Keeper).DeployERC20Contract(") {
+				c.Ok(rule, construct, cs.Ins.Pos(), "freshly deployed contract address")
+				continue
+			}
+			want := "!aggregate/keeper.(Keeper).IsERC20Registered($0, $1, " + a + ")"
+			c.Req(fa.PathCondStrings(cs.Ins.Block())[want], rule, construct, cs.Ins.Pos(), "guarded by "+want, fmt.Sprintf("contract %s is indexed without a dominating not-registered test on that same address: one contract can end up in two pairs", a))
+		}
+	}
+}
+
+func registeredTestsReadOwnIndex(c *Check, rule string) {
+	ks := "store/prefix.NewStore(cosmos-sdk/types.(Context).KVStore($1, $0.storeKey), g:aggregate/types.%s)"
+	c.Spec(rule, Macros{}, FnSpec{Fn: agK + "Keeper.IsDenomRegistered",
+		Returns: []Ret{{Label: "has(by-denom index, denom)", Index: 0, Want: []string{"store/prefix.(Store).Has(" + fmt.Sprintf(ks, "KeyPrefixTokenPairByDenom") + ", $2)"}}}})
+	c.Spec(rule, Macros{}, FnSpec{Fn: agK + "Keeper.IsERC20Registered",
+		Returns: []Ret{{Label: "has(by-contract index, address bytes)", Index: 0, Want: []string{"store/prefix.(Store).Has(" + fmt.Sprintf(ks, "KeyPrefixTokenPairByERC20") + ", go-ethereum/common.(Address).Bytes($2))"}}}})
 }
